@@ -3292,7 +3292,7 @@ int  bufr_dataset_compressible( BUFR_Dataset *dts )
 /*
  * compressed data hold one column per element: every subset must have the same structure, 
  * position by position, and a character column that differs between subsets must be 
- * expressible with the 6-bit width field (at most 63 octets)
+ * expressible with the 6-bit width field (at most 62 octets: all ones means none)
  */
       for (j = 0; j < count ; j++ )
          {
@@ -3322,7 +3322,7 @@ int  bufr_dataset_compressible( BUFR_Dataset *dts )
                return 0;
                }
             }
-         else if ((coderef->encoding.type == TYPE_CCITT_IA5)&&(coderef->encoding.nbits/8 > 63))
+         else if ((coderef->encoding.type == TYPE_CCITT_IA5)&&(coderef->encoding.nbits/8 > 62)) /* 63 reads as "no increments" */
             {
             const char *s1, *s2;
             int   l1, l2;
